@@ -242,8 +242,13 @@ theorem step_kind (P : Params) (s s' : St) (l : Label) (o : Option Obs)
     · split at h
       · simp only [Option.some.injEq, Prod.mk.injEq] at h; obtain ⟨rfl, _⟩ := h
         exact .env (SameCore.setUpc _ _ _) (by simp; exact .same _)
-      · simp only [Option.some.injEq, Prod.mk.injEq] at h; obtain ⟨rfl, _⟩ := h
-        exact .env (SameCore.setUpc _ _ _) (by simp; exact .same _)
+      · split at h
+        · split at h
+          all_goals
+            simp only [Option.some.injEq, Prod.mk.injEq] at h; obtain ⟨rfl, _⟩ := h
+            exact .env (by constructor <;> simp) (by simp; exact .same _)
+        · simp only [Option.some.injEq, Prod.mk.injEq] at h; obtain ⟨rfl, _⟩ := h
+          exact .env (SameCore.setUpc _ _ _) (by simp; exact .same _)
     · simp at h
   case reg t cb =>
     simp only [Option.some.injEq, Prod.mk.injEq] at h; obtain ⟨rfl, _⟩ := h
